@@ -34,6 +34,8 @@ import fractions
 import pickle
 import re
 
+import os
+import sys
 from common import Prop, exc_name
 
 
@@ -681,6 +683,67 @@ class C19(Prop):
                             "expected": dump(prev), "observed": dump(items)}
             prev = items
         return None
+
+    OPT_SCRIPT = r"""
+import json, sys
+from nxslib.dev import DDeviceData, DeviceChannel, Device
+out = []
+def attempt(rec, what, name, value):
+    before = dict(rec.__dict__)
+    try:
+        setattr(rec, name, value)
+        raised = None
+    except Exception as e:
+        raised = type(e).__name__
+    after = dict(rec.__dict__)
+    if raised is None or any(after.get(k) is not v for k, v in before.items()) or set(after) != set(before):
+        out.append({"record": what, "field": name, "raised": raised, "changed": [k for k in after if after.get(k) is not before.get(k)]})
+for ty in (0, 2, 10, 0x8a, 255):
+    ch = DeviceChannel(3, ty, 2, "chan3")
+    for name in ("chan", "_type", "vdim", "name", "mlen", "dtype", "critical", "_initdone", "is_valid", "is_numerical"):
+        attempt(ch.data, f"DeviceChannel(3,{ty},2,'chan3').data", name, 0)
+    dev = Device(1, 3, 0, [DeviceChannel(0, ty, 1, "c")])
+    for name in ("chmax", "flags", "rxpadding", "div_supported", "ack_supported", "_initdone"):
+        attempt(dev.data, f"Device(1,3,0,[..type {ty}]).data", name, 0)
+    attempt(dev.channel_get(0).data, "Device(...).channel_get(0).data", "chan", 5)
+    d = DDeviceData(2, 3, 0)
+    attempt(d, "DDeviceData(2,3,0)", "flags", 0)
+print(json.dumps(out[:5]))
+"""
+
+    def optimized_interpreter(self):
+        """the read-only guard must not depend on the interpreter mode: the same attempts under `python -O` and `-OO`
+        (asserts stripped, docstrings dropped)"""
+        import json
+        import subprocess
+        import common
+        out = []
+        for flag in ("-O", "-OO"):
+            env = dict(os.environ, PYTHONPATH=os.path.join(common.REPO, "src"), PYTHONDONTWRITEBYTECODE="1")
+            p = subprocess.run([sys.executable, flag, "-c", self.OPT_SCRIPT], capture_output=True, text=True, env=env, timeout=120)
+            try:
+                bad = json.loads(p.stdout.strip().splitlines()[-1]) if p.returncode == 0 else [{"error": p.stderr[-300:]}]
+            except Exception:  # noqa: BLE001
+                bad = [{"error": (p.stdout + p.stderr)[-300:]}]
+            if bad:
+                b = bad[0]
+                out.append({"key": "readonly", "case": f"python {flag}: {b.get('record')} . {b.get('field')} = 0",
+                            "what": f"under `python {flag}` assigning to an identifying field of a sealed record "
+                                    f"{'did not raise' if b.get('raised') is None else 'changed the record'}",
+                            "expected": "an exception, record unchanged", "observed": json.dumps(b)[:300]})
+        return out
+
+    def replay(self, obj):
+        case = obj.get("case", "")
+        if case.startswith("python -O"):
+            vs = self.optimized_interpreter()
+            return vs[0] if vs else None
+        return super().replay(obj)
+
+    def extra_checks(self, rng, tier, ev):
+        v = self.optimized_interpreter()
+        ev["coverage"]["interpreter_modes"] = ["default", "-O", "-OO"]
+        return v
 
 
 PROP = C19()
